@@ -1,0 +1,78 @@
+// Copyright 2026 The TCell Authors
+//
+// Licensed under the Apache License, Version 2.0 (the "License");
+// you may not use file except in compliance with the License.
+// You may obtain a copy of the license at
+//
+//    http://www.apache.org/licenses/LICENSE-2.0
+//
+// Unless required by applicable law or agreed to in writing, software
+// distributed under the License is distributed on an "AS IS" BASIS,
+// WITHOUT WARRANTIES OR CONDITIONS OF ANY KIND, either express or implied.
+// See the License for the specific language governing permissions and
+// limitations under the License.
+
+package encoding
+
+import (
+	"errors"
+	"unicode/utf8"
+
+	"golang.org/x/text/encoding"
+	"golang.org/x/text/encoding/simplifiedchinese"
+	"golang.org/x/text/transform"
+)
+
+// GB2312 is GB 2312-80 in its EUC form (EUC-CN), which is what a locale
+// such as zh_CN.GB2312 means by the name: ASCII, and two bytes in the range
+// a1-f7, a1-fe for the characters of the standard.  GBK extends exactly
+// this code table, so it decodes with the GBK decoder, and encodes with the
+// GBK encoder restricted to the codes of the subset.  (HZ-GB-2312, a 7-bit
+// form of the same set used in mail, is a different encoding.)
+var GB2312 encoding.Encoding = gb2312{}
+
+type gb2312 struct{}
+
+func (gb2312) NewDecoder() *encoding.Decoder {
+	return simplifiedchinese.GBK.NewDecoder()
+}
+
+func (gb2312) NewEncoder() *encoding.Encoder {
+	return &encoding.Encoder{Transformer: &gb2312Encoder{}}
+}
+
+var errNotGB2312 = errors.New("encoding: rune not supported by encoding.")
+
+type gb2312Encoder struct {
+	transform.NopResetter
+}
+
+func (*gb2312Encoder) Transform(dst, src []byte, atEOF bool) (int, int, error) {
+	gbk := simplifiedchinese.GBK.NewEncoder()
+	nDst, nSrc := 0, 0
+	for nSrc < len(src) {
+		if !atEOF && !utf8.FullRune(src[nSrc:]) {
+			return nDst, nSrc, transform.ErrShortSrc
+		}
+		_, n := utf8.DecodeRune(src[nSrc:])
+		var b [4]byte
+		gbk.Reset()
+		nb, _, err := gbk.Transform(b[:], src[nSrc:nSrc+n], true)
+		switch {
+		case err != nil:
+			return nDst, nSrc, errNotGB2312
+		case nb == 1 && b[0] < 0x80:
+		case nb == 2 && b[0] >= 0xa1 && b[0] <= 0xf7 && b[1] >= 0xa1:
+		default:
+			// a GBK extension
+			return nDst, nSrc, errNotGB2312
+		}
+		if nDst+nb > len(dst) {
+			return nDst, nSrc, transform.ErrShortDst
+		}
+		copy(dst[nDst:], b[:nb])
+		nDst += nb
+		nSrc += n
+	}
+	return nDst, nSrc, nil
+}
